@@ -116,6 +116,8 @@ def fam_stalta(ctx, rng):
     lo = float(rng.choice([0.05, 0.2, 0.5, 0.7]))
     hi = float(rng.choice([1.5, 2.5, 4.0, 8.0]))
     comps = COMPS[int(rng.integers(0, 7))]
+    if rng.random() < 0.3:
+        comps = list(comps)                      # list / tuple forms of the components argument
     items = gen_windows(rng, k, n, dt)
     hv, akind = attach(rng, k)
     if pre_reject(rng, hv):
